@@ -90,17 +90,22 @@ def showS (r : Except Status TMesh) : String :=
   | .ok m => dumpMesh m
   | .error e => e.name
 
+/-- which reader / writer variants the driver runs: /repo as it is, or (argument `fixed`) with every proposed repair -/
+structure Sel where
+  fx : Fix
+  bfx : BFix
+
 /-- the static reader of an extension on a file -/
-def decodeExt (ext : String) (f : FileArg) : String :=
+def decodeExt (sel : Sel) (ext : String) (f : FileArg) : String :=
   match ext, f with
   | "ugrid", .text ts => showR (decodeUgridTxt ts)
-  | "tri", .text ts => showR (decodeTri Fix.current ts)
-  | "surf", .text ts => showR (decodeSurf Fix.current ts)
-  | "fgrid", .text ts => showR (decodeFgrid Fix.current ts)
-  | "su2", .text ts => showR (decodeSu2 Fix.current ts)
-  | "msh", .text ts => showR (decodeMsh Fix.current ts)
-  | "grid", .text ts => showR (decodeGrid Fix.current ts)
-  | "r8.ugrid", .bin bs => showS (decodeR8 BFix.current bs)
+  | "tri", .text ts => showR (decodeTri sel.fx ts)
+  | "surf", .text ts => showR (decodeSurf sel.fx ts)
+  | "fgrid", .text ts => showR (decodeFgrid sel.fx ts)
+  | "su2", .text ts => showR (decodeSu2 sel.fx ts)
+  | "msh", .text ts => showR (decodeMsh sel.fx ts)
+  | "grid", .text ts => showR (decodeGrid sel.fx ts)
+  | "r8.ugrid", .bin bs => showS (decodeR8 sel.bfx bs)
   | _, _ => "bad-op"
 
 /-! ### MESH -/
@@ -175,29 +180,29 @@ def encodeExt (ext : String) (m : TMesh) : Option (List Tok) :=
   | "msh" => some (encodeMsh m)
   | _ => none
 
-def opExp (roundtrip : Bool) (ws : List String) : String :=
+def opExp (sel : Sel) (roundtrip : Bool) (ws : List String) : String :=
   match ws with
   | ext :: rest =>
     if !exts.contains ext then "bad-op" else
-    match parseMesh (ext == "msh") rest with
+    match parseMesh (ext == "msh" && !sel.fx.mshRenumber) rest with
     | none => "bad-op"
     | some (m, _) =>
       match encodeExt ext m with
       | none => "unmodelled"
       | some ts =>
-        if roundtrip then decodeExt ext (.text ts)
+        if roundtrip then decodeExt sel ext (.text ts)
         else "ok |" ++ String.join (ts.map fmtTok)
   | _ => "bad-op"
 
 /-- `hazard_exp`: ref_export_su2 forms `max_faceid - min_faceid + 1` from `INT_MIN - INT_MAX` when the mesh has no
     marker element -/
-def opHazardExp (ws : List String) : String :=
+def opHazardExp (sel : Sel) (ws : List String) : String :=
   match ws with
   | ext :: rest =>
     if !exts.contains ext then "bad-op" else
-    match parseMesh (ext == "msh") rest with
+    match parseMesh false rest with
     | none => "bad-op"
-    | some (m, _) => if ext == "su2" && (su2Ids m).isEmpty then "hazard" else "clean"
+    | some (m, _) => if ext == "su2" && (su2Ids m).isEmpty && !sel.fx.su2NoMarker then "hazard" else "clean"
   | _ => "bad-op"
 
 /-! ### readers -/
@@ -205,7 +210,7 @@ def opHazardExp (ws : List String) : String :=
 def splitBar (ws : List String) : List String × List String :=
   (ws.takeWhile (· != "|"), (ws.dropWhile (· != "|")).drop 1)
 
-def opImp (robust : Bool) (ws : List String) : String :=
+def opImp (sel : Sel) (robust : Bool) (ws : List String) : String :=
   let (hdr, fl) := splitBar ws
   match hdr with
   | [ext] =>
@@ -215,12 +220,12 @@ def opImp (robust : Bool) (ws : List String) : String :=
     | some f =>
       match ext, f with
       | "r8.ugrid", .text _ => "bad-op"
-      | _, _ => if robust then "returned" else decodeExt ext f
+      | _, _ => if robust then "returned" else decodeExt sel ext f
   | _ => "bad-op"
 
 /-- `hazard_imp` / `hazard`: does the model predict that the C does not come back cleanly?  `translate`: an accepted
     vertex index far outside every array (the exporters index their renumbering tables with it) counts too -/
-def opHazard (translate : Bool) (ws : List String) : String :=
+def opHazard (sel : Sel) (translate : Bool) (ws : List String) : String :=
   let (hdr, fl) := splitBar ws
   match hdr with
   | [ext] =>
@@ -234,16 +239,16 @@ def opHazard (translate : Bool) (ws : List String) : String :=
       let r : Option Bool := match ext, f with
         | "ugrid", .text ts => some (match decodeUgridTxt ts with
             | .ok m => translate && far m | .error e => e == .st .undefined || e == .st .diverge || e == .bloat)
-        | "r8.ugrid", .bin bs => some (match decodeR8 BFix.current bs with
+        | "r8.ugrid", .bin bs => some (match decodeR8 sel.bfx bs with
             | .ok m => translate && far m | .error e => e == .undefined || e == .diverge)
         | "r8.ugrid", _ => none
         | _, .text ts =>
           let d : Option (R TMesh) := match ext with
-            | "tri" => some (decodeTri Fix.current ts) | "surf" => some (decodeSurf Fix.current ts)
-            | "fgrid" => some (decodeFgrid Fix.current ts) | "su2" => some (decodeSu2 Fix.current ts)
-            | "msh" => some (decodeMsh Fix.current ts) | "grid" => some (decodeGrid Fix.current ts) | _ => none
+            | "tri" => some (decodeTri sel.fx ts) | "surf" => some (decodeSurf sel.fx ts)
+            | "fgrid" => some (decodeFgrid sel.fx ts) | "su2" => some (decodeSu2 sel.fx ts)
+            | "msh" => some (decodeMsh sel.fx ts) | "grid" => some (decodeGrid sel.fx ts) | _ => none
           d.map fun d => match d with
-            | .ok m => translate && (far m || (ext == "su2" && (su2Ids m).isEmpty)) | .error e => e == .st .undefined || e == .st .diverge || e == .bloat
+            | .ok m => translate && (far m || (ext == "su2" && (su2Ids m).isEmpty && !sel.fx.su2NoMarker)) | .error e => e == .st .undefined || e == .st .diverge || e == .bloat
         | _, _ => none
       match r with
       | none => "bad-op"
@@ -256,7 +261,7 @@ def fmtRow (acc : String) (r : List UInt64) : String := r.foldl (fun a v => a ++
 def saneExt (s : String) : Bool :=
   1 ≤ s.length && s.length ≤ 12 && s.all fun c => c.isLower || c.isDigit || c == '_' || c == '.'
 
-def opScalar (ws : List String) : String :=
+def opScalar (sel : Sel) (ws : List String) : String :=
   let (hdr, fl) := splitBar ws
   match hdr with
   | [ext, n, twod] =>
@@ -269,18 +274,18 @@ def opScalar (ws : List String) : String :=
         | .error e => e.name
         | .ok (ldim, arrs) => (arrs.headD []).foldl fmtRow ("ok " ++ toString ldim)
       match ext, f with
-      | "rst", .bin bs => show2 (partScalarRst BFix.current 100000 N (nodeMaxOf N) ranks bs)
-      | "snap", .bin bs => show2 (partScalarSnap BFix.current 100000 N (nodeMaxOf N) ranks bs)
+      | "rst", .bin bs => show2 (partScalarRst sel.bfx 100000 N (nodeMaxOf N) ranks bs)
+      | "snap", .bin bs => show2 (partScalarSnap sel.bfx 100000 N (nodeMaxOf N) ranks bs)
       | "plt", .bin bs =>
-        match partScalarPlt BFix.current (nodeMaxOf N) bs with
+        match partScalarPlt sel.bfx (nodeMaxOf N) bs with
         | .error e => e.name
         | .ok ldim => "ok " ++ toString ldim
       | _, _ => "unmodelled"
     | _, _, _ => "bad-op"
   | _ => "bad-op"
 
-def opHazardScalar (ws : List String) : String :=
-  let r := opScalar ws
+def opHazardScalar (sel : Sel) (ws : List String) : String :=
+  let r := opScalar sel ws
   if r == "bad-op" || r == "unmodelled" then r
   else if r == "ub" || r == "hang" || r == "bloat" then "hazard" else "clean"
 
@@ -303,7 +308,7 @@ def opMapbc (ws : List String) : String :=
 
 /-! ### `rd_scalar` of harness/h_sol.c for `.rst` / `.snap` on several ranks -/
 
-def opRdScalar (np : Nat) (hdr : List String) (gs : List (List String)) : String :=
+def opRdScalar (sel : Sel) (np : Nat) (hdr : List String) (gs : List (List String)) : String :=
   match hdr with
   | [ext, fl, n] =>
     if gs.length ≠ np + 1 || !Drivers.Sol.extOk ext then "bad-op" else
@@ -313,8 +318,8 @@ def opRdScalar (np : Nat) (hdr : List String) (gs : List (List String)) : String
       match Drivers.Sol.file? (gs.headD []), (gs.drop 1).mapM (Drivers.Sol.readGroup? N) with
       | some (.bin bs), some ranks =>
         let nodeMax := nodeMaxOf ((ranks.map List.length).foldl max 0)
-        let r := if ext == ".rst" then some (partScalarRst BFix.current fl N nodeMax ranks bs)
-                 else if ext == ".snap" then some (partScalarSnap BFix.current fl N nodeMax ranks bs) else none
+        let r := if ext == ".rst" then some (partScalarRst sel.bfx fl N nodeMax ranks bs)
+                 else if ext == ".snap" then some (partScalarSnap sel.bfx fl N nodeMax ranks bs) else none
         match r with
         | none => "unmodelled"
         | some (.error e) => e.name
@@ -324,18 +329,18 @@ def opRdScalar (np : Nat) (hdr : List String) (gs : List (List String)) : String
     | _, _ => "bad-op"
   | _ => "bad-op"
 
-def step (_ : Unit) (line : String) : Unit × String :=
+def step (sel : Sel) (_ : Unit) (line : String) : Unit × String :=
   let r : String := match words line with
-    | "imp" :: ws => opImp false ws
-    | "robust_imp" :: ws => opImp true ws
-    | "robust" :: ws => opImp true ws
-    | "exp" :: ws => opExp false ws
-    | "rt" :: ws => opExp true ws
-    | "scalar" :: ws => opScalar ws
-    | "hazard_imp" :: ws => opHazard false ws
-    | "hazard" :: ws => opHazard true ws
-    | "hazard_scalar" :: ws => opHazardScalar ws
-    | "hazard_exp" :: ws => opHazardExp ws
+    | "imp" :: ws => opImp sel false ws
+    | "robust_imp" :: ws => opImp sel true ws
+    | "robust" :: ws => opImp sel true ws
+    | "exp" :: ws => opExp sel false ws
+    | "rt" :: ws => opExp sel true ws
+    | "scalar" :: ws => opScalar sel ws
+    | "hazard_imp" :: ws => opHazard sel false ws
+    | "hazard" :: ws => opHazard sel true ws
+    | "hazard_scalar" :: ws => opHazardScalar sel ws
+    | "hazard_exp" :: ws => opHazardExp sel ws
     | "mapbc" :: ws => opMapbc ws
     | "mapbc_token" :: ws => opMapbc ws
     | "rd_scalar" :: npS :: rest =>
@@ -344,12 +349,13 @@ def step (_ : Unit) (line : String) : Unit × String :=
       | some np =>
         if np = 0 then "bad-op" else
         let (hdr, gs) := Drivers.Sol.splitGroups rest
-        if gs.length > 64 then "bad-op" else opRdScalar np hdr gs
+        if gs.length > 64 then "bad-op" else opRdScalar sel np hdr gs
     | _ => "bad-op"
   ((), r)
 
-def run (_ : List String) : IO UInt32 := do
-  runLoop () step
+def run (args : List String) : IO UInt32 := do
+  let sel : Sel := if args.contains "fixed" then ⟨Fix.all, BFix.all⟩ else ⟨Fix.current, BFix.current⟩
+  runLoop () (step sel)
   return 0
 
 end Drivers.Formats
